@@ -3,7 +3,7 @@ LEVEL = "model_checking"
 RULE = ("stateless exploration of the real Reader pipeline (read thread -> input queue -> parser thread -> pool workers -> osmdata queue -> "
         "consumer) under the vsched scheduler: every schedule with at most k deviations from the deterministic lowest-id-first scheduler "
         "(delay bounding; plus preemption bounding with free switches on one configuration per format), k iterated smallest first across "
-        "all configurations. Inputs: 11-object OPL/XML/PBF files delivered in 64-byte pieces (hook H5) into 512/256-byte parser buffers "
+        "all configurations. Inputs: 11-object OPL/XML/PBF/o5m files (OPL, XML and o5m from hand-written encoders independent of the library) delivered in 64-byte pieces (hook H5) into 512/256-byte parser buffers "
         "(hook H6, so nested buffers and back-pressure occur). Oracle: the delivered (type,id,version,metadata,tags,location/refs/members) "
         "sequence equals the abstract object list filtered by the entity mask; read() after end of data throws. evaluations = complete "
         "schedules; distinct_nontrivial = schedules deviating from the default schedule (distinct by choice sequence).")
